@@ -363,6 +363,66 @@ Section Model.
      constructor's state *)
   Definition history (st : stack) (m : mwrap) (h : list index) : list gres := map (getitem st m) h.
 
+  (* ---------- iterator objects ---------- *)
+  (* __iter__ is a generator function: every iter(mw) creates a NEW generator frame
+         for i in range(len(self)): yield self[i]
+     whose only state is its own loop variable (nothing is stored on the wrapper).  State of one iterator:
+     Some p = suspended, sample p is the next one; None = finished (exhausted, or an exception left the frame). *)
+  Definition itstate : Type := option nat.
+
+  Definition res_is_err (r : res) : bool := match r with RErr | RIndexErr => true | _ => false end.
+
+  (* next(it): (None = StopIteration | Some r = yielded sample r / the exception r raised out of self[i]), new state *)
+  Definition it_next (st : stack) (m : mwrap) (s : itstate) : option res * itstate :=
+    match s with
+    | None => (None, None)
+    | Some p =>
+        if Z.of_nat p <? s_len st then
+          let r := getitem_int st m (Z.of_nat p) in
+          if res_is_err r then (Some r, None) else (Some r, Some (S p))
+        else (None, None)
+    end.
+
+  (* `for s in it` / list(it): iter(it) is it (a generator returns itself, its position is kept); the remaining
+     samples, ending with the first one that raises *)
+  Fixpoint it_rest_from (st : stack) (m : mwrap) (fuel p : nat) : list res :=
+    match fuel with
+    | O => []
+    | S f => let r := getitem_int st m (Z.of_nat p) in
+             if res_is_err r then [r] else r :: it_rest_from st m f (S p)
+    end.
+  Definition it_rest (st : stack) (m : mwrap) (s : itstate) : list res * itstate :=
+    match s with
+    | None => ([], None)
+    | Some p => (it_rest_from st m (Z.to_nat (s_len st) - p) p, None)
+    end.
+
+  (* one step of a history on one ModeWrapper object: indexing, len, creating iterator number k (a name: the previous
+     iterator of that name is dropped), next(it_k), for-loop over it_k *)
+  Inductive op := OpGet (i : index) | OpLen | OpIter (k : nat) | OpNext (k : nat) | OpRest (k : nat).
+  Inductive opres := PGet (g : gres) | PLen (z : Z) | PIter | PNext (r : option res) | PRest (l : list res).
+
+  (* the live iterator objects; a name never created behaves like a finished iterator *)
+  Definition its : Type := nat -> itstate.
+  Definition no_its : its := fun _ => None.
+  Definition upd (f : its) (k : nat) (v : itstate) : its := fun j => if Nat.eqb j k then v else f j.
+
+  Definition run_op (st : stack) (m : mwrap) (f : its) (o : op) : opres * its :=
+    match o with
+    | OpGet i => (PGet (getitem st m i), f)            (* __getitem__ assigns no attribute *)
+    | OpLen => (PLen (mw_len st), f)
+    | OpIter k => (PIter, upd f k (Some O))
+    | OpNext k => let '(r, s) := it_next st m (f k) in (PNext r, upd f k s)
+    | OpRest k => let '(l, s) := it_rest st m (f k) in (PRest l, upd f k s)
+    end.
+
+  Fixpoint run_ops (st : stack) (m : mwrap) (f : its) (ops : list op) : list opres * its :=
+    match ops with
+    | [] => ([], f)
+    | o :: r => let '(x, f') := run_op st m f o in
+                let '(xs, f'') := run_ops st m f' r in (x :: xs, f'')
+    end.
+
   (* TorchWrapper(dataset, mode).getitem_<it>(idx, ctx): dataset[idx][mode.index(it)];
      None = the has_item assertion / IndexError *)
   Definition torch_getitem (tmode : list string) (ds : Z -> list value) (it : string) (idx : Z) : option value :=
@@ -377,3 +437,4 @@ End Model.
 Arguments Bare {value}. Arguments Tuple {value}.
 Arguments RItems {value}. Arguments RItemsCtx {value}. Arguments RErr {value}. Arguments RIndexErr {value}.
 Arguments GOne {value}. Arguments GMany {value}. Arguments GValueError {value}.
+Arguments PGet {value}. Arguments PLen {value}. Arguments PIter {value}. Arguments PNext {value}. Arguments PRest {value}.
